@@ -193,6 +193,35 @@ theorem diagnostics_eq_counts (nbins : Nat) (reads : List (Option (PostRead α))
             subst h1 h2; rfl
     · simp [hv]
 
+/-- the same at the level of the action sequence, which runs the diagnostic only when the state
+    has more than one track slot (see `adiagSeqStep`) -/
+theorem diagnostics_eq_counts_seq (nslots nbins : Nat) (reads : List (Option (PostRead α)))
+    (counts : List Nat) (pt a : Nat) (hslots : nslots ≠ 1) (ha : a < nbins)
+    (hact : ∀ q a', some q ∈ reads → q.action = some a' → a' < nbins)
+    (hb : pt * nbins + a < counts.length) :
+    (adiagSeqStep nslots nbins reads counts)[pt * nbins + a]? =
+      some (counts[pt * nbins + a] + reads.countP (fun r => match r with
+        | some q => isTrackValid q.status && q.particle == some pt && q.action == some a
+        | none => false)) := by
+  have : (nslots == 1) = false := by simpa using hslots
+  rw [adiagSeqStep, this]
+  exact diagnostics_eq_counts nbins reads counts pt a ha hact hb
+
+/-- NEGATIVE RESULT (defect of the code as written, replayed on the real code by
+    tools/checks/c17.py, key `action-diagnostic-skipped-single-slot`): with ONE track slot the
+    action diagnostic counts nothing although a valid step is delivered — "action diagnostics
+    equal the counts of delivered steps" is false for `num_track_slots = 1` on host. -/
+theorem action_diagnostic_single_slot_counts_nothing :
+    let q : PostRead Nat :=
+      ⟨some 0, some 0, none, 1, some 2, 0, some 1, 0, ⟨some 0, false, 0, ⟨0, 0, 0⟩, ⟨0, 0, 0⟩, 0⟩, 2⟩
+    let p : Params := ⟨{ actionId := true, particle := true }, none, false⟩
+    -- the step is delivered to the (unfiltered) callbacks …
+    delivered p (stepSlot p none (some q) SlotData.init) = true ∧
+    -- … the executor would count it …
+    adiagStep 3 [some q] [0, 0, 0, 0, 0, 0] = [0, 0, 0, 0, 0, 1] ∧
+    -- … but the sequence never runs the executor
+    adiagSeqStep 1 3 [some q] [0, 0, 0, 0, 0, 0] = [0, 0, 0, 0, 0, 0] := by decide
+
 /-- the step diagnostic's counter (particle `pt`, bin `k`) grows by the number of slots whose
     track was killed in this step with `min(num_steps, nbins-1) = k` -/
 theorem step_diagnostic_eq_counts (nbins : Nat) (reads : List (Option (PostRead α)))
